@@ -186,7 +186,12 @@ func specialLayers(tier string) []Layer {
 			op, mag := ops[u/6], u%6
 			spec := opSpecs[op]
 			parts := partitions(spec.Arity)
-			for _, zp := range []uint32{0, 3, 40} {
+			zps := []uint32{0, 3, 40}
+			if thorough {
+				zps = []uint32{0, 1, 3, 19, 20, 40}
+				p1Stale = []int8{0, 1, 2, 3, 4}
+			}
+			for _, zp := range zps {
 				for _, m := range M6 {
 					reps := classReps(mag, 9, (m+2)%6)
 					idx := make([]int, spec.Arity)
@@ -306,6 +311,94 @@ func specialLayers(tier string) []Layer {
 					}
 					for _, zp := range []uint32{0, 40, uint32(19 * n)} {
 						specialCase(c, opSqrt, []*Opnd{x}, zp, ToNearestEven, preFresh, "large")
+					}
+				}
+			},
+		})
+	}
+	// P4: precision is only an attribute — operands (and zero-precision receivers) carrying the largest
+	// precisions must behave like any other: no panic, same IEEE results
+	{
+		bigPrecs := []uint32{math.MaxUint32, math.MaxUint32 - 1, 1 << 31, 1<<31 + 1, 1<<32 - 19}
+		layers = append(layers, Layer{
+			Name:   "P4-extreme-precision-attributes",
+			Units:  len(ops),
+			Bounds: fmt.Sprintf("operations {Add,Sub,Mul,Quo,FMA,Sqrt,Set,Neg,Abs} on operands from {3, −1.2, 0.25, ±0, ±Inf} whose precision attribute is in %v (every position, also all at once), receiver precision {5, 40} (and 0 for Add/Sub/Mul/Set/Neg/Abs, where the result is exact and short), 6 modes", bigPrecs),
+			Run: func(c *Ctx, u int) {
+				op := ops[u]
+				spec := opSpecs[op]
+				base := []*Opnd{mkInt64(3, 0, 9, 0), mkInt64(-12, -1, 9, 1), mkInt64(25, -2, 9, 2), mkSpecial(fZero, false, 9, 0), mkSpecial(fZero, true, 9, 3), mkSpecial(fInf, false, 9, 0), mkSpecial(fInf, true, 9, 4)}
+				zps := []uint32{5, 40}
+				if op != opQuo && op != opFMA && op != opSqrt {
+					zps = append(zps, 0)
+				}
+				idx := make([]int, spec.Arity)
+				for {
+					for _, bp := range bigPrecs {
+						for mask := 1; mask < 1<<uint(spec.Arity); mask++ {
+							vals := make([]*Opnd, spec.Arity)
+							for i := range vals {
+								v := *base[idx[i]]
+								if mask&(1<<uint(i)) != 0 {
+									v.Prec = bp - uint32(i) // distinct huge precisions whose sums wrap
+								}
+								vals[i] = &v
+							}
+							for _, zp := range zps {
+								for _, m := range M6 {
+									specialCase(c, op, vals, zp, m, preFresh, "huge-precision")
+								}
+							}
+						}
+					}
+					i := 0
+					for ; i < spec.Arity; i++ {
+						idx[i]++
+						if idx[i] < len(base) {
+							break
+						}
+						idx[i] = 0
+					}
+					if i == spec.Arity || c.Done() {
+						break
+					}
+				}
+			},
+		})
+	}
+	// P5: finite operands at the ends of the exponent range: a result that leaves the range is a zero /
+	// an infinity with the sign of the exact result (an inexact zero is not the "exactly zero sum" of the sign rule)
+	{
+		layers = append(layers, Layer{
+			Name:   "P5-range-end-signs",
+			Units:  4,
+			Bounds: "Add/Sub/Mul/Quo of x, y in ±{6, 7, 1.1, 1.0}×10^e for e at MinExp−1..MinExp+1 (differences and quotients underflow) and MaxExp−2..MaxExp−1 (sums and products overflow), receiver precision {1, 2, 34}, 6 modes: form and sign of the result",
+			Run: func(c *Ctx, u int) {
+				op := []int{opAdd, opSub, opMul, opQuo}[u]
+				var vs []*Opnd
+				for _, e := range []int64{MinExp, MinExp + 1, MinExp + 2, MaxExp - 1, MaxExp} {
+					for _, cf := range []int64{6, 7, 11, 10} {
+						for _, sg := range []int64{1, -1} {
+							o := mkInt64(sg*cf, 0, 9, 0)
+							o.Exp = e
+							o.V.E10 = e - int64(len(o.Words))*DW
+							vs = append(vs, o)
+						}
+					}
+				}
+				for _, x := range vs {
+					for _, y := range vs {
+						if (op == opAdd || op == opSub) && abs64(x.Exp-y.Exp) > 100 {
+							continue
+						}
+						if c.Done() {
+							return
+						}
+						for _, zp := range []uint32{1, 2, 34} {
+							for _, m := range M6 {
+								specialCase(c, op, []*Opnd{x, y}, zp, m, preFresh, "range-end")
+							}
+						}
 					}
 				}
 			},
